@@ -605,17 +605,29 @@ pub fn stages(ctx: &Ctx) -> Vec<Stage> {
         }
     }));
     // (2) fault enumeration
-    let n_prob = tier.pick(2u64, 10u64);
+    let n_prob = tier.pick(4u64, 12u64);
     st.push(Stage::new("faults", 7 * n_prob, move |i, rep| {
         let solver = Solver::ALL[(i % 7) as usize];
         let p = i / 7;
-        // the first two problems are seed-independent anchors
-        let mut rng = if p < 2 { Rng::for_case(606, "c06-fault-anchor", p) } else { Rng::for_case(seed, "c06-fault", p) };
+        // the first four problems are seed-independent anchors
+        let mut rng = if p < 4 { Rng::for_case(606, "c06-fault-anchor", p) } else { Rng::for_case(seed, "c06-fault", p) };
         let n = 1 + (p as usize) % 3;
         let prob = IvpProblem::gen(&mut rng, n, [0usize, 2, 1, 5][(p % 4) as usize]);
         let tol = rng.log10(-7.0, -4.0);
         let dt_max = if solver == Solver::Euler { 0.02 } else { dtmax_for(solver, prob.lip, tol, 0.9) * 3.0 };
-        let steps = if solver == Solver::Euler { 40.0 } else { rng.r(12.0, 30.0) };
+        // interval lengths: many steps; a single (clipped) first step - the multistep solvers then finish
+        // with an empty history; two or three steps
+        let steps = match p % 4 {
+            1 => rng.r(0.15, 0.5),
+            2 => rng.r(1.0, 3.5),
+            _ => {
+                if solver == Solver::Euler {
+                    40.0
+                } else {
+                    rng.r(12.0, 30.0)
+                }
+            }
+        };
         let cfg = Cfg { t0: 0.0, t1: dt_max * steps, dt_min: dt_max * 1e-7, dt_max, tol };
         fault_case(rep, solver, &prob, &cfg, if p % 2 == 0 { DimMode::Static } else { DimMode::Dynamic }, 1);
     }));
